@@ -19,6 +19,7 @@ import (
 	"sync"
 	"sync/atomic"
 	"testing"
+	"time"
 
 	"github.com/decred/dcrd/dcrec/secp256k1/v4"
 	decdsa "github.com/decred/dcrd/dcrec/secp256k1/v4/ecdsa"
@@ -785,6 +786,7 @@ func c29RunPCM(r *ev.Run, pe *c29PCMEnv, c *c29PCMCase, acc, rej *int64) {
 
 func TestVerifC29(t *testing.T) {
 	r := ev.Start(t, "C29", "exploration")
+	t0 := time.Now()
 	ntm.InitIconModule()
 	envs := []*c29Env{c29NewEnv("eth"), c29NewEnv("icon")}
 	envOf := func(uid string) *c29Env {
@@ -830,7 +832,10 @@ func TestVerifC29(t *testing.T) {
 	prodLast := r.Pick(0, 6)      // full product, eth module, primary variant only (run last)
 	mutAllVariantsUpTo := r.Pick(5, 7)
 	mutPositions := r.Pick(1, 2)
-	r.Rule(fmt.Sprintf("network-type modules eth+icon; n validators with fixed keys; per index a kind from {nil, valid, signature of every other validator j!=i (wrong index), foreign key, validator i over another decision, 65 zero bytes, S bit flipped, V flipped, 64-byte no-V}. (A) full product of kinds: n<=%d on all 12 variants {compressed,uncompressed,mixed keys}x{built,decoded context}x{wire bytes, NewProof+Add}, n<=%d on 2 (quick) / 4 (thorough) variants, n<=%d on the primary variant of the eth module; (B) n=1..7: every signer subset x every choice of <=%d mutated positions x every non-valid kind; (C) every subset truncated to every shorter length and extended by 1-2 entries beyond n; (D) VerifyPart for every signer/kind x every claimed index in -2..n+1 and 2^31; (E) honest NewProofPart/Add/Bytes path for every signer subset n<=7; (F) proofContextMap.Verify over 2 network types x (all 16 signer subsets x 7 things signed [the decision, other source network, other network type id, other height, other round, other NTS hash, other validator set]) for the first x (3 quick / 5 thorough subsets x 4 / 7 things signed) for the second x 5 proof-list shapes x digest with/without a context-less third type. A case is non-trivial if the vector has at least one non-nil entry; distinct = (module,n,vector).", prodAll, prodSome, prodLast, mutPositions))
+	setRule := func(prodLast int) {
+		r.Rule(fmt.Sprintf("network-type modules eth+icon; n validators with fixed keys; per index a kind from {nil, valid, signature of every other validator j!=i (wrong index), foreign key, validator i over another decision, 65 zero bytes, S bit flipped, V flipped, 64-byte no-V}. (A) full product of kinds: n<=%d on all 12 variants {compressed,uncompressed,mixed keys}x{built,decoded context}x{wire bytes, NewProof+Add}, n<=%d on 2 (quick) / 4 (thorough) variants, n<=%d on the primary variant of the eth module (n=6 only when stages A-F took < 4 min, decided before it starts); (B) n=1..7: every signer subset x every choice of <=%d mutated positions x every non-valid kind; (C) every subset truncated to every shorter length and extended by 1-2 entries beyond n; (D) VerifyPart for every signer/kind x every claimed index in -2..n+1 and 2^31; (E) honest NewProofPart/Add/Bytes path for every signer subset n<=7; (F) proofContextMap.Verify over 2 network types x (all 16 signer subsets x 7 things signed [the decision, other source network, other network type id, other height, other round, other NTS hash, other validator set]) for the first x (3 quick / 5 thorough subsets x 4 / 7 things signed) for the second x 5 proof-list shapes x digest with/without a context-less third type. A case is non-trivial if the vector has at least one non-nil entry; distinct = (module,n,vector).", prodAll, prodSome, prodLast, mutPositions))
+	}
+	setRule(prodSome)
 	r.Assume("signatures are produced with fixed private keys (RFC 6979 deterministic); forgery is represented by the listed mutation alphabet, not by searching the key space",
 		"entries whose (r,s) is a genuine signature of validator i but which lack a usable recovery id (V flipped, 64-byte form) may be refused or counted: only the threshold is enforced on them",
 		"validator sets with duplicate or nil keys are outside the stated quantifier and are not generated")
@@ -1216,14 +1221,19 @@ func TestVerifC29(t *testing.T) {
 	}
 
 	// ---- stage A (last part): the largest product, run last so that a cap only cuts this one
-	prodLastDone := 0
+	prodLastDone := prodSome
 	if prodLast > prodSome && !r.Expired() {
-		ok := true
-		for n := prodSome + 1; n <= prodLast && ok; n++ {
-			ok = runJobs([]job{productJob(group{envs[0], n, c29FormCompressed, 0, 0})})
-			if ok {
-				prodLastDone = n
+		if time.Since(t0) < 4*time.Minute {
+			setRule(prodLast)
+			ok := true
+			for n := prodSome + 1; n <= prodLast && ok; n++ {
+				ok = runJobs([]job{productJob(group{envs[0], n, c29FormCompressed, 0, 0})})
+				if ok {
+					prodLastDone = n
+				}
 			}
+		} else {
+			r.Set("product_n6_skipped", "stages A-F took longer than 4 min on this machine; the n=6 product (4.8M vectors) was not started")
 		}
 	}
 	r.Set("product_primary_eth_complete_up_to_n", prodLastDone)
